@@ -133,6 +133,35 @@ def run(ctx):
     if not reg_ok:
         tie_broken.append('get_symmetry registry maps a name to a different class')
 
+    # ---- enumeration after the index tables changed through the library (sync_charges drops the charges no stored block uses; conj):
+    #      still exactly the sectors of the CURRENT tables
+    import gen as _gen
+    import symmray as _sr
+    n_sync = 0
+    for k in range(300 if ctx.thorough else 60):
+        n = names[k % len(names)] if names else 'U1'
+        if n not in ('Z2', 'U1', 'Z2Z2', 'U1U1', 'Z4'):
+            continue
+        try:
+            x = _gen.rand_array(ctx.rng, _sr, n, ndim=ctx.rng.randint(2, 3), keep=ctx.rng.choice([0.3, 0.5, 0.7]), maxsize=2, static=False)
+            if not x.blocks:
+                continue
+            list(x.gen_valid_sectors())            # (whatever reading the tables now leaves behind)
+            for nm, y in (('sync_charges', x.sync_charges()), ('sync_charges then conj', x.sync_charges().conj())):
+                ctx.count(); n_sync += 1
+                tabs = [sorted(ix.chargemap) for ix in y.indices]
+                want = refsym.valid_sectors(n, tabs, [ix.dual for ix in y.indices], y.charge)
+                got = list(y.gen_valid_sectors())
+                if sorted(got) != sorted(want):
+                    ctx.violation('gen_valid_sectors after %s differs from the sectors of the current index tables' % nm,
+                                  {'oracle': 'brute force over the current tables', 'symmetry': n, 'tables': [[str(c) for c in t] for t in tabs],
+                                   'duals': [bool(ix.dual) for ix in y.indices], 'charge': str(y.charge),
+                                   'gen_valid_sectors': [str(s_) for s_ in got], 'brute_force': [str(s_) for s_ in want]})
+                if any(len(a.chargemap) < len(b.chargemap) for a, b in zip(y.indices, x.indices)):
+                    ctx.nontrivial(('after-sync', n, str(tabs), str(y.charge)))
+        except (ValueError, KeyError, IndexError) as e:
+            ctx.note('sync stream: %s: %s' % (type(e).__name__, e))
+    ctx.extra['enumerations_after_sync_charges'] = n_sync
     # ---- tie 2: hand model of is_valid_sector / gen_valid_sectors vs the implementation
     cases = sector_cases(ctx, names)
     exprs2, meta2, impl_bad = [], [], []
